@@ -1,5 +1,6 @@
 import Scion.Model.Net
 import Scion.Proofs.Net
+import Scion.Proofs.NetEdge
 /-!
 # C03 — Reversed paths carry replies back to the source
 
@@ -39,5 +40,45 @@ theorem reverse_position (c : Cursor) :
     (reverseCursor c).info.consDir = !c.info.consDir ∧
     (reverseCursor c).info.segID = c.info.segID := by
   simp [reverseCursor, Cursor.isFirstHop, Cursor.isLastHop, flipInfo, Bool.and_comm]
+
+/-- **C03 for single-segment paths** (up, core or down; whole or shortcut; one border router per AS
+    — hence `_partial`): the packet delivered at the destination, with its path reversed there,
+    is delivered back in the source AS and crosses the same interfaces in reverse order.
+    The proof shows that the reversed delivered packet carries exactly the path that path
+    combination would build from the same segment used in the opposite direction — the SegID the
+    routers leave in the info field is the initial value for the way back (C22
+    `down_final_is_up_start` / `up_final_is_down_start`) — and then applies C02. -/
+theorem reverse_run_partial (mac : MacFn) (net : Net) (now : Nat)
+    (hWF : WFNet net) (hUp : AllUp net) (hSR : SingleRouter net)
+    (e : Edge) (src dst : Nat) (c cf : Cursor) (tr : List (Nat × Nat)) (hpeer : e.peer = none)
+    (hJ : Joinable mac net [e] src dst) (hp : pathOf [e] = some c) (hexp : Unexpired now c)
+    (hsend : send mac net now src dst c = .delivered dst tr cf) :
+    ∃ cr, send mac net now dst src (reverseCursor cf) = .delivered src tr.reverse cr := by
+  have hJ' := joinable_flip mac net e src dst hJ
+  cases hd : e.down with
+  | true =>
+    obtain ⟨cf', h1, h2, h3⟩ := single_down_full mac net now src dst hWF hUp hSR e c hd hpeer hJ hp hexp
+    rw [h1] at hsend
+    cases hsend
+    rw [hd] at hJ'
+    simp only [Bool.not_true] at hJ'
+    obtain ⟨cr, h4, _⟩ := single_up_full mac net now dst src hWF hUp hSR { e with down := false }
+      (reverseCursor cf) rfl hpeer hJ' h2 h3
+    have := pathIfaces_flip e
+    rw [hd] at this
+    simp only [Bool.not_true] at this
+    exact ⟨cr, by rw [h4, this]⟩
+  | false =>
+    obtain ⟨cf', h1, h2, h3⟩ := single_up_full mac net now src dst hWF hUp hSR e c hd hpeer hJ hp hexp
+    rw [h1] at hsend
+    cases hsend
+    rw [hd] at hJ'
+    simp only [Bool.not_false] at hJ'
+    obtain ⟨cr, h4, _⟩ := single_down_full mac net now dst src hWF hUp hSR { e with down := true }
+      (reverseCursor cf) rfl hpeer hJ' h2 h3
+    have := pathIfaces_flip e
+    rw [hd] at this
+    simp only [Bool.not_false] at this
+    exact ⟨cr, by rw [h4, this]⟩
 
 end Scion.C03
